@@ -28,6 +28,8 @@ const (
 	shMap   // T is a map-kinded type
 	shNum   // T is an integer-kinded type
 	shByte  // T is a uint8-kinded type
+	shDoc   // T is a struct with an interface-typed field holding a map
+	shMemo  // T is *L, whose String method memoises into the value
 	shPval  // T is P itself: every method has a pointer receiver, so P lacks the marshal interfaces (only *P has them) and is decoded through &value
 	numShapes
 )
@@ -43,7 +45,7 @@ type Both interface {
 	json.Unmarshaler
 }
 
-var shapeNames = [...]string{"V(value marshalers, pointer unmarshalers)", "*P(pointer type)", "OnlyM", "OnlyU", "None", "Both(interface-typed T holding *P or nil)", "*V(pointer to value-receiver type)", "Str(string kind)", "Bytes(slice kind)", "Map(map kind)", "Num(integer kind)", "Byte(uint8 kind)", "P(value type whose methods all have pointer receivers)"}
+var shapeNames = [...]string{"V(value marshalers, pointer unmarshalers)", "*P(pointer type)", "OnlyM", "OnlyU", "None", "Both(interface-typed T holding *P or nil)", "*V(pointer to value-receiver type)", "Str(string kind)", "Bytes(slice kind)", "Map(map kind)", "Num(integer kind)", "Byte(uint8 kind)", "Doc(struct with an interface-typed field holding a map)", "*L(String memoises into the value)", "P(value type whose methods all have pointer receivers)"}
 var helperNames = [...]string{"MarshalText", "UnmarshalText", "MarshalBinary", "UnmarshalBinary", "MarshalJSON", "UnmarshalJSON"}
 
 // listSpec is one helper invocation.
@@ -61,7 +63,7 @@ func (ls listSpec) helper() string { return helperNames[ls.enc*2+ls.dir] }
 // hasInterface: does the shape implement the interface this helper needs?
 func (ls listSpec) hasInterface() bool {
 	switch ls.shape {
-	case shV, shP, shIface, shPV, shStr, shBytes, shMap, shNum, shByte:
+	case shV, shP, shIface, shPV, shStr, shBytes, shMap, shNum, shByte, shDoc, shMemo:
 		return true
 	case shOnlyM:
 		return ls.dir == dirMarshal
@@ -502,6 +504,15 @@ func execList(ls listSpec, keepMsgs bool) (l *listRun, escaped interface{}) {
 			runEnc(l, ls, func(i int, c caseSpec) Byte { return Byte(i + 1) })
 		case shPval:
 			runEnc(l, ls, func(i int, c caseSpec) P { return P{i + 1, c.payload} })
+		case shDoc:
+			runEnc(l, ls, func(i int, c caseSpec) Doc { return Doc{i + 1, c.payload, docBody(i+1, false)} })
+		case shMemo:
+			runEnc(l, ls, func(i int, c caseSpec) *L {
+				if c.beh == bNilReceiver || (c.nilValue && ls.dir == dirUnmarshal) {
+					return nil
+				}
+				return &L{Case: i + 1, Payload: c.payload}
+			})
 		case shPV:
 			runEnc(l, ls, func(i int, c caseSpec) *V {
 				if c.beh == bNilReceiver || (c.nilValue && ls.dir == dirUnmarshal) {
@@ -614,7 +625,7 @@ func judge(ls listSpec, l *listRun, escaped interface{}) *core.Violation {
 func normalise(ls *listSpec) {
 	for i := range ls.cases {
 		c := &ls.cases[i]
-		ptrShape := ls.shape == shP || ls.shape == shPV
+		ptrShape := ls.shape == shP || ls.shape == shPV || ls.shape == shMemo
 		if c.beh == bNilReceiver && (!ptrShape || ls.dir != dirMarshal) {
 			c.beh = bPanicString
 		}
@@ -665,8 +676,11 @@ func normalise(ls *listSpec) {
 		if ls.shape == shByte && i >= 90 {
 			c.constraint = 2 - ls.dir // a uint8 case number stays below the "wrong" offset
 		}
-		if c.wildcard && (ls.shape == shStr || ls.shape == shBytes || ls.shape == shMap || ls.shape == shNum || ls.shape == shByte || ls.typeHelper != 2 || ls.dir != dirUnmarshal || c.pred != pNone || c.nilValue || c.nilIface || c.adjust) {
+		if c.wildcard && (ls.shape == shStr || ls.shape == shBytes || ls.shape == shMap || ls.shape == shNum || ls.shape == shByte || ls.shape == shMemo || ls.typeHelper != 2 || ls.dir != dirUnmarshal || c.pred != pNone || c.nilValue || c.nilIface || c.adjust) {
 			c.wildcard = false
+		}
+		if c.wildcard && ls.shape == shDoc && c.wrongKind == wDynType {
+			c.wrongKind = wTilde // the open payload leaves the payload open, not what sits behind the interface field
 		}
 		if c.nilIface && i == 0 && ls.shape == shIface && applicable(ls.dir, c.constraint) && firstNil(*ls) {
 			// on the first case the type check looks at the value: judged at list level only
